@@ -1548,6 +1548,160 @@ example :
 
 end surrogate_fit
 
+/-! ### EVERY class with a save / load pair, every keyword branch of `save` (generated table `saveTables`) -/
+
+section save_tables
+
+theorem distinctKeys_nodup (l : List String) (h : distinctKeys l = true) : l.Nodup := by
+  induction l with
+  | nil => exact List.nodup_nil
+  | cons k r ih =>
+    simp only [distinctKeys, Bool.and_eq_true, Bool.not_eq_true', List.contains_eq_mem, decide_eq_false_iff_not] at h
+    exact List.nodup_cons.mpr ⟨h.1, ih h.2⟩
+
+/-- what `saveRowOk` says about a row -/
+theorem rowOk_spec (r : SaveRow) (h : saveRowOk r = true) :
+    (r.spec.writes.map Entry.key).Nodup ∧ (∀ e ∈ r.spec.reads, covers r.spec.writes e = true) ∧
+    (∀ w ∈ r.writes, ∃ e ∈ r.reads, e.key = w.key ∧ e.slot = w.slot) := by
+  unfold saveRowOk at h
+  simp only [Bool.and_eq_true, List.all_eq_true] at h
+  obtain ⟨⟨⟨⟨h1, h2⟩, h3⟩, _⟩, _⟩ := h
+  refine ⟨distinctKeys_nodup _ h1, h2, fun w hw => ?_⟩
+  have := h3 w hw
+  unfold readBack at this
+  rw [List.any_eq_true] at this
+  obtain ⟨e, he, hk⟩ := this
+  simp only [Bool.and_eq_true, beq_iff_eq] at hk
+  exact ⟨e, he, hk.1, hk.2⟩
+
+/-- **an entry of the file holds exactly the attribute its line names**: for tables with distinct keys, after `save` the
+entry under the key of a line that was not skipped is the value of THAT line's attribute -/
+theorem saved_entry_is_its_field (sp : Spec) (hnd : (sp.writes.map Entry.key).Nodup) (s : State α)
+    (w : Entry) (hw : w ∈ sp.writes) (hs : skipped s w = false) :
+    Dict.get? (save sp s) w.key = some (s w.slot) := by
+  have := foldl_write_get s sp.writes hnd [] w hw
+  rw [hs] at this
+  simpa [save, npzSave, toDict] using this
+
+/-- **two different saved fields never hold the same array unless they were the same before saving**: if the entries
+under the keys of two lines are equal, the two attributes were equal in the model that was saved -/
+theorem equal_entries_equal_fields (sp : Spec) (hnd : (sp.writes.map Entry.key).Nodup) (s : State α)
+    (w1 w2 : Entry) (h1 : w1 ∈ sp.writes) (h2 : w2 ∈ sp.writes) (hs1 : skipped s w1 = false) (hs2 : skipped s w2 = false)
+    (heq : Dict.get? (save sp s) w1.key = Dict.get? (save sp s) w2.key) : s w1.slot = s w2.slot := by
+  rw [saved_entry_is_its_field sp hnd s w1 h1 hs1, saved_entry_is_its_field sp hnd s w2 h2 hs2] at heq
+  exact Option.some.inj heq
+
+/-- **load ∘ save = id on every saved field, for ANY row that passes `saveRowOk`** (a branch that writes every key from the
+attribute `load` stores it into): whatever the arrays (any shapes and contents; the mandatory attributes hold arrays), the
+file loads into ANY freshly constructed object and afterwards every attribute written by the branch, and every attribute
+assigned by `load`, holds exactly what it held in the saved object; all other attributes are untouched. -/
+theorem saved_fields_roundtrip (r : SaveRow) (hok : saveRowOk r = true) (s s0 : State α)
+    (hnn : ∀ w ∈ r.writes, w.opt = false → (s w.slot).isNone = false) :
+    ∃ s', load r.spec (save r.spec s) s0 = .ok s' ∧ (∀ f ∈ r.fields, s' f = s f) ∧
+      (∀ e ∈ r.reads, s' e.slot = s e.slot) ∧ (∀ x, (∀ e ∈ r.reads, e.slot ≠ x) → s' x = s0 x) := by
+  obtain ⟨hnd, hcov, hback⟩ := rowOk_spec r hok
+  obtain ⟨s', h1, h2, h3⟩ := roundtrip r.spec hnd hcov s s0 hnn
+  refine ⟨s', h1, ?_, h2, ?_⟩
+  · intro f hf
+    obtain ⟨w, hw, rfl⟩ := List.mem_map.mp hf
+    obtain ⟨e, he, _, hsl⟩ := hback w hw
+    have := h2 e he
+    rw [hsl] at this
+    exact this
+  · intro x hx
+    rw [h3 x hx]
+    simp [applyResets, SaveRow.spec]
+
+/-- **the generated table**: every (class, branch) row read off the running code passes `saveRowOk` — decided again whenever the
+code changes -/
+theorem save_tables_ok : ∀ r : SaveRow, r ∈ saveTables → saveRowOk r = true := by decide
+
+/-- every class with a save / load pair, BOTH on-disk formats: every saved field is reproduced exactly -/
+theorem every_class_every_branch_roundtrips (r : SaveRow) (hr : r ∈ saveTables) (s s0 : State α)
+    (hnn : ∀ w ∈ r.writes, w.opt = false → (s w.slot).isNone = false) :
+    ∃ s', load r.spec (save r.spec s) s0 = .ok s' ∧ (∀ f ∈ r.fields, s' f = s f) :=
+  let ⟨s', h1, h2, _⟩ := saved_fields_roundtrip r (save_tables_ok r hr) s s0 hnn
+  ⟨s', h1, h2⟩
+
+/-- a class whose `save` takes a `compressed` keyword has a row for both branches, and both branches write the same
+attributes under the same keys -/
+theorem keyword_classes_have_both_branches :
+    ∀ c ∈ saveKeywordClasses, ∃ a : SaveRow, a ∈ saveTables ∧ ∃ b : SaveRow, b ∈ saveTables ∧
+      a.cls = c ∧ a.branch = "compressed" ∧ b.cls = c ∧ b.branch = "uncompressed" ∧ a.writes = b.writes ∧ a.reads = b.reads := by
+  decide
+
+/-- every class of the package with a save / load method pair is a row of the table (the base classes `GenericModel`,
+`DiffusionModel`, `PrecipitateBase` through the subclasses that inherit the pair) -/
+theorem every_pair_has_a_row :
+    ∀ p ∈ saveLoadPairs, p.1 ∈ ["GenericModel", "DiffusionModel", "PrecipitateBase"] ∨
+      ∃ r : SaveRow, r ∈ saveTables ∧ r.cls = p.1 := by
+  decide
+
+/-- the strength model saves its three histories in both formats -/
+theorem strength_fields_saved :
+    ∀ r : SaveRow, r ∈ saveTables → r.cls = "StrengthModel" → ∀ f ∈ ["rss", "ls", "solidStrength"], f ∈ r.fields := by
+  decide
+
+/-! witness: the uncompressed branch writes the key `ls` from the attribute `rss` (copy / paste slip) -/
+
+def strengthSwapped : SaveRow :=
+  ("StrengthModel", "uncompressed",
+    [("ssStrength", "solidStrength", false), ("rss", "rss", false), ("ls", "rss", false)],
+    [("ssStrength", "solidStrength", false), ("rss", "rss", false), ("ls", "ls", false)])
+
+/-- a strength model after three steps with particles: mean projected radius ~ 1e-9, mean surface-to-surface distance ~ 1e-5
+(integers stand for the doubles) -/
+def strengthState : State Nat := fun slot =>
+  if slot = "rss" then .arr [3, 1] [0, 896, 911]
+  else if slot = "ls" then .arr [3, 1] [0, 13016021, 12990345]
+  else if slot = "solidStrength" then .arr [3] [4000, 3998, 3997]
+  else .none
+
+def dataOf (o : Except Err (State Nat)) (x : String) : Option (List Nat) :=
+  match o with
+  | .ok s => (match s x with | .arr _ d => some d | .none => none)
+  | .error _ => none
+
+/-- `saveRowOk` rejects the swapped branch … -/
+theorem swapped_row_rejected : saveRowOk strengthSwapped = false := by decide
+
+/-- … the file loads without any error, `rss` and the solid solution strength come back, and the reloaded `ls` history
+silently holds the `rss` history: `saved_fields_roundtrip` fails for it … -/
+theorem swapped_branch_reloads_rss_as_ls :
+    dataOf (load strengthSwapped.spec (save strengthSwapped.spec strengthState) (fun _ => .none)) "ls" = some [0, 896, 911] ∧
+    dataOf (load strengthSwapped.spec (save strengthSwapped.spec strengthState) (fun _ => .none)) "rss" = some [0, 896, 911] ∧
+    dataOf (.ok strengthState) "ls" = some [0, 13016021, 12990345] := by
+  decide
+
+/-- … and two different entries of the file hold the same array although the attributes differed -/
+theorem swapped_branch_duplicates_an_entry :
+    (Dict.get? (save strengthSwapped.spec strengthState) "ls").map (fun v => match v with | .arr _ d => d | .none => [])
+      = (Dict.get? (save strengthSwapped.spec strengthState) "rss").map (fun v => match v with | .arr _ d => d | .none => []) ∧
+    dataOf (.ok strengthState) "ls" ≠ dataOf (.ok strengthState) "rss" := by
+  decide
+
+/-- the uncompressed branch as the code has it -/
+def strengthUncompressed : SaveRow :=
+  ("StrengthModel", "uncompressed",
+    [("ssStrength", "solidStrength", false), ("rss", "rss", false), ("ls", "ls", false)],
+    [("ssStrength", "solidStrength", false), ("rss", "rss", false), ("ls", "ls", false)])
+
+/-- non-vacuity: the same state through the branch as the code has it (a row of the generated table) -/
+example : strengthUncompressed ∈ saveTables ∧
+    ∃ s', load strengthUncompressed.spec (save strengthUncompressed.spec strengthState) (fun _ => .none) = .ok s' ∧
+      s' "ls" = strengthState "ls" ∧ s' "rss" = strengthState "rss" := by
+  refine ⟨by decide, ?_⟩
+  obtain ⟨s', h1, h2, _⟩ := saved_fields_roundtrip (α := Nat) strengthUncompressed (by decide) strengthState (fun _ => .none)
+    (by decide)
+  exact ⟨s', h1, h2 "ls" (by decide), h2 "rss" (by decide)⟩
+
+/-- non-vacuity of `equal_entries_equal_fields`: a precipitate-free run (rss = ls = 0 everywhere) does give equal entries -/
+example : Dict.get? (save strengthSwapped.spec (fun _ => (.arr [2, 1] [0, 0] : Val Nat))) "ls"
+    = Dict.get? (save strengthSwapped.spec (fun _ => (.arr [2, 1] [0, 0] : Val Nat))) "rss" := by
+  rfl
+
+end save_tables
+
 /-! ### non-vacuity -/
 
 /-- a state meeting the hypotheses of `precip_roundtrip`, and the theorem applied to it -/
